@@ -71,6 +71,8 @@ type Exec struct {
 	SizeBefore int
 	// Poisoned is set when the pre-state had its dead bytes overwritten.
 	Poisoned bool
+	// Path is the history after the setup that led here (including Op), when known.
+	Path []Op
 }
 
 // Monitor checks one property.
@@ -92,6 +94,7 @@ type Config struct {
 	GCEvery     int
 	MaxSamples  int
 	OnState     func(path []Op) // called for every new state (after the monitor)
+	GC          bool            // C18: a forced collection after every operation of every replay and before every check
 }
 
 // Warmer is implemented by monitors that check a cheap subset of their suite on the
@@ -229,8 +232,28 @@ func (e *explorer) pathOf(id int32) []Op {
 	return p
 }
 
+// gcAll makes rebuild force a collection after every operation (C18).
+var gcAll bool
+
+// SetGCAll switches the forced-collection regime on (replay of C18 counterexamples).
+func SetGCAll(on bool) {
+	gcAll = on
+	if on {
+		debug.SetGCPercent(1)
+	}
+}
+
 // rebuild replays setup+path silently on a fresh tree.
 func rebuild(u *Universe, path []Op) (Driver, *Ref, error) {
+	if gcAll {
+		return RebuildGC(u, path, ^uint64(0))
+	}
+	return RebuildGC(u, path, 0)
+}
+
+// RebuildGC replays setup+path with a forced collection after the setup and after
+// every path operation whose bit is set in mask (bit i = after path[i]).
+func RebuildGC(u *Universe, path []Op, mask uint64) (Driver, *Ref, error) {
 	d := u.New()
 	ref := NewRef(u)
 	for i, op := range u.Setup {
@@ -239,11 +262,17 @@ func rebuild(u *Universe, path []Op) (Driver, *Ref, error) {
 		}
 		ref.Apply(op)
 	}
+	if mask != 0 {
+		runtime.GC()
+	}
 	for i, op := range path {
 		if _, p := apply(d, op); p != "" {
 			return nil, nil, fmt.Errorf("panic replaying path op %d %s: %s", i, u.OpString(op), p)
 		}
 		ref.Apply(op)
+		if i < 64 && mask&(1<<uint(i)) != 0 {
+			runtime.GC()
+		}
 	}
 	return d, ref, nil
 }
@@ -315,7 +344,11 @@ func EvalPathX(u *Universe, m Monitor, path []Op, fill string, st *Stats) (*Eval
 		d.Poison(FillFor(u, fill, tk))
 	}
 	x.SizeBefore = d.Size()
+	x.Path = path
 	x.DelResult, x.Panic = apply(d, op)
+	if gcAll {
+		runtime.GC()
+	}
 	x.Ref = pre.Clone()
 	x.Ref.Apply(op)
 	if v := m.Transition(x); v != nil {
@@ -417,6 +450,10 @@ func Explore(u *Universe, m Monitor, cfg Config) *Result {
 	debug.SetGCPercent(-1)
 	debug.SetMemoryLimit(6 << 30)
 	runtime.GOMAXPROCS(1)
+	gcAll = cfg.GC
+	if cfg.GC {
+		debug.SetGCPercent(1)
+	}
 
 	e := &explorer{u: u, m: m, cfg: cfg, res: &Result{Universe: u.Name, Property: m.ID()}}
 	st := &e.res.Stats
@@ -512,8 +549,11 @@ func Explore(u *Universe, m Monitor, cfg Config) *Result {
 					e.res.HarnessErr = err.Error()
 					return e.res
 				}
-				x := &Exec{U: u, D: d, Pre: pre, Op: op, Stats: st, SizeBefore: d.Size()}
+				x := &Exec{U: u, D: d, Pre: pre, Op: op, Stats: st, SizeBefore: d.Size(), Path: full}
 				x.DelResult, x.Panic = apply(d, op)
+				if cfg.GC {
+					runtime.GC()
+				}
 				x.Ref = pre.Clone()
 				x.Ref.Apply(op)
 				st.Transitions++
